@@ -404,16 +404,23 @@ def oracle_raw(case, ob):
     issued, received = [], []
     pending = None          # (d) an oob of the driving monitor waiting for its answer
     stop = False
+    flat_i = -1             # index of the current step in the flattened run
+    stop_at = None          # flattened index of the step in which the carve-out was entered
     for ci, (cc, rec) in enumerate(zip(case["calls"], ob)):
         m, cl = cc["m"], cc["cl"]
         steps = rec[:-1]
         for si, (log, out, states, pr) in enumerate(steps):
+            flat_i += 1
             where = f"call {ci} ({cl[0]}) step {si}"
             op_in = (cl if si == 0 else (cc["ops"][si - 1][0] if si - 1 < len(cc["ops"]) else ["close"]))
             closing = op_in in (["close"], ["aclose"], ["throw", ["GeneratorExit"]],
                                 ["athrow", ["GeneratorExit"]])
             if has_marker([log, out]) or (closing and any(e[0] == 4 for e in log)):
                 stop = True     # an oob()/yield while being closed: by design an error; carve-out
+                if closing and any(e[0] == 4 for e in log):
+                    # judged from the body's own events only (never from what the implementation
+                    # answered): an oob() was really issued while the coroutine was being closed
+                    stop_at = flat_i
                 break
             # the answer of the previous oob goes to that oob
             if pending is not None and si == 0:
@@ -483,7 +490,7 @@ def oracle_raw(case, ob):
             return f"the run without the re-entrant calls differs: {L and C and first_diff(plain, mine)}"
     # reference monitor (tagged yields)
     ref = run_raw(case, ref=True)
-    return compare_ref(flat_raw(ref), flat_raw(ob))
+    return compare_ref(flat_raw(ref), flat_raw(ob), limit=stop_at)
 
 
 def flat_raw(ob):
@@ -498,9 +505,14 @@ def first_diff(a, b):
         return (a, b)
 
 
-def compare_ref(ref, got):
+def compare_ref(ref, got, limit=None):
     n = cut_steps(ref[:-1]) if ref and isinstance(ref[-1], list) and ref[-1][:1] == ["inner states"] \
         else cut_steps(ref)
+    if limit is not None:
+        # the step in which an oob() was issued while the coroutine was being closed, and everything after
+        # it, is outside the property (C07's own carve-out: the designed RuntimeError may leave the monitor
+        # expecting a datum); the reference is only compared up to that step
+        n = min(n, limit)
     for i in range(n):
         if i >= len(got) or got[i] != ref[i]:
             return (f"step {i}: asynkit gives {got[i] if i < len(got) else None} but the reference "
